@@ -9,7 +9,8 @@ ASSUMPTIONS = [
     "pattern catalogue generated from the supported grammar (quick: 52 patterns to depth 2; thorough: + products to depth 3); "
     "patterns stay concrete: the *program* quantifier is bounded by enumeration, the *schedule* quantifier (all RNG outcomes) "
     "is decided by the solver",
-    "max_repeat = 2 for open-ended repeats (keeps loops short); `a{5,}` style minimum-above-cap patterns included",
+    "max_repeat = 2 for open-ended repeats (keeps loops short); `a{5,}` style minimum-above-cap patterns included; "
+    "bounded repeats a{m,n} with n around the sre opcode numbers (44, 45 on 3.12) are generated with max_repeat = 60",
     "tape: 8 int draws, 6 char draws; random.choice over a str alphabet returns a symbolic 1-char string assumed to be in "
     "the alphabet; over other sequences any index",
     "re.fullmatch / re.search on the symbolic result are CrossHair's regex model; counterexamples are replayed with the real re",
@@ -88,6 +89,13 @@ def harnesses(tier, seed, active_kf=()):
     for i, p in enumerate(["a.c", r"[^#\d]x", "(ab|c)+", "^a*$", r"\d{2}-\w"]):
         out.append(mk("C09.fake.%03d" % i, TAPE, FAKE.format(pat=p), covers=("drew",), pre=TPRE, timeout=90 * k, functions=FUNCS,
                       bounds=BOUNDS, meta={"pattern": p}, cover_timeout=60))
+    # bounded repeats whose upper count collides with small integer constants of the sre module (opcode numbers),
+    # generated with a max_repeat ABOVE the bound: the bound must win
+    import re._constants as _c
+    k = int(_c.MAX_REPEAT)
+    for i, p in enumerate(["a{1,%d}" % k, "a{0,%d}b" % (k - 1), "(?:ab){2,%d}" % (k + 1), "a{1,%d}" % int(_c.MIN_REPEAT), "[ab]{0,%d}?c" % k]):
+        out.append(mk("C09.bounded.%03d" % i, TAPE, GEN.format(pat=p).replace("max_repeat=2", "max_repeat=60"), covers=("drew",),
+                      pre=TPRE, timeout=120 * k_t if False else 120, functions=FUNCS, bounds=BOUNDS, meta={"pattern": p}, cover_timeout=60))
     n = 0
     for a in UNSUPPORTED_ATOMS:
         for tmpl in ("%sb", "c%sb", "cb%s", "(?:x|%s)b", "(c%s)+"):
